@@ -52,7 +52,7 @@ var c04CtxNames = [...]string{"top-level", "struct-field", "slice-element", "beh
 func (c04) Info(t core.Tier) core.Info {
 	return core.Info{
 		Level: "exploration",
-		Rule: fmt.Sprintf("EXHAUSTIVE decision table: %d node kinds (8 primitives, slice, pointer) x %d modifier sequences (all sequences of length <= 3 over Required/Optional/Default(valid)/Default(invalid)/Catch; NotNil repetitions and pointee modifiers for pointers) x %d contexts (%v) x every input class "+
+		Rule: fmt.Sprintf("EXHAUSTIVE decision table: %d node kinds (8 primitives, slice, pointer) x %d modifier sequences (all sequences of length <= 3 over Required/Optional/Default(valid)/Default(invalid)/Catch - for slices Default(typed nil or empty slice) in place of Catch; NotNil repetitions and pointee modifiers for pointers) x %d contexts (%v) x every input class "+
 			"(nil, missing key, \"\", 11 white-space forms incl. U+00A0/U+2003/U+3000/U+0085/U+2028, zero-width space, \"0\", 0, false, zero time, un-coercible, valid, empty/nil/non-empty slice; Validate: zero value, empty and nil slice, nil pointer, pointer to zero, valid) x {Parse, Validate}. one case = one (kind, modifiers, context) with all its inputs and modes. "+
 			"observed through: issue multiset (required / not_nil / coerce / test codes), recording tests (ran or not, and with which value), destination pre-filled with sentinels (written or not). every cell is non-trivial; distinct by cell. thorough adds random deeper nestings.", len(c04Kinds), len(c04ModSeqs), c04Contexts, c04CtxNames),
 		Assumptions: commonAssumptions,
@@ -113,6 +113,13 @@ func c04Cell(k spec.Kind, seq []byte) *spec.Node {
 				n.Mods = append(n.Mods, spec.Mod{Op: spec.MDefault, Val: []string{"d"}})
 			case 'F':
 				n.Mods = append(n.Mods, spec.Mod{Op: spec.MDefault, Val: []string{"d1", "d2"}})
+			case 'C':
+				// slices have no Catch: the letter stands for a default that is set but empty (a typed nil or an empty slice)
+				if len(seq)%2 == 0 {
+					n.Mods = append(n.Mods, spec.Mod{Op: spec.MDefault, Val: []string(nil)})
+				} else {
+					n.Mods = append(n.Mods, spec.Mod{Op: spec.MDefault, Val: []string{}})
+				}
 			}
 		}
 		return n
